@@ -79,6 +79,15 @@ pub fn alphabet(n: usize, c: &AlphaCfg) -> Vec<Dev> {
                 true
             }));
         }
+        // case twins inside one variant (one deviation, so that it combines with a flag or a style at k = 2)
+        devs.push(dev(format!("v{}.serialize=\"yes\"+to_string=\"Yes\"", i), &[&format!("serA{}", i), &format!("tos{}", i)], move |s| {
+            if i >= s.variants.len() {
+                return false;
+            }
+            s.variants[i].serialize.insert(0, "yes".into());
+            s.variants[i].to_string = Some("Yes".into());
+            true
+        }));
         if c.kinds {
             for (kn, kd) in data_kinds() {
                 devs.push(dev(format!("v{}.kind={}", i, kn), &[&format!("kind{}", i)], move |s| {
@@ -139,6 +148,15 @@ pub fn alphabet(n: usize, c: &AlphaCfg) -> Vec<Dev> {
             }));
         }
         if c.aci {
+            // a case-insensitive explicit spelling in one deviation (combines with a case twin on another variant at k = 2)
+            devs.push(dev(format!("v{}.serialize=\"XY\"+ascii_case_insensitive", i), &[&format!("serA{}", i), &format!("aci{}", i)], move |s| {
+                if i >= s.variants.len() {
+                    return false;
+                }
+                s.variants[i].serialize.insert(0, "XY".into());
+                s.variants[i].aci = Some(Aci::Bare);
+                true
+            }));
             for (an, a) in [("bare", Aci::Bare), ("=true", Aci::True), ("=false", Aci::False)] {
                 devs.push(dev(format!("v{}.ascii_case_insensitive{}", i, if an == "bare" { "" } else { an }), &[&format!("aci{}", i)], move |s| {
                     if i >= s.variants.len() {
@@ -232,6 +250,13 @@ pub fn alphabet(n: usize, c: &AlphaCfg) -> Vec<Dev> {
 
 /// documented domain of EnumString shared by the family
 pub fn parse_domain(s: &EnumSpec) -> bool {
+    parse_domain_overlap_ok(s) && !refsem::any_overlap(s)
+}
+
+/// the documented domain WITHOUT the "spellings do not overlap" restriction. Programs admitted only by this
+/// predicate are explored on *unambiguous* inputs only (inputs matched by exactly one enabled non-default
+/// variant, or by none), and a compile error in such a program is not a violation (see pipeline).
+pub fn parse_domain_overlap_ok(s: &EnumSpec) -> bool {
     if s.variants.iter().filter(|v| v.default && !v.disabled).count() > 1 {
         return false;
     }
@@ -244,7 +269,16 @@ pub fn parse_domain(s: &EnumSpec) -> bool {
             return false;
         }
     }
-    !refsem::any_overlap(s)
+    true
+}
+
+/// aux tag for programs whose spellings overlap
+pub fn overlap_aux(s: &EnumSpec) -> serde_json::Value {
+    if refsem::any_overlap(s) {
+        json!({"overlap": true})
+    } else {
+        json!(null)
+    }
 }
 
 /// glue: enum + helpers + vidx + the two parse closures
@@ -343,7 +377,18 @@ pub fn explore_parse(
     let spellings = all_spellings(&spec);
     let mut seen_variant = vec![false; spec.variants.len()];
     let (mut n_ok, mut n_rej) = (0u64, 0u64);
+    let overlapping = ctx.program.aux["overlap"] == true;
+    if overlapping {
+        ctx.outcome("overlapping-program-unambiguous-inputs");
+    }
     for s in inputs {
+        if overlapping {
+            let n = refsem::parse_candidates(&spec).filter(|(_, v)| refsem::matches(&spec, v, s)).count();
+            if n > 1 {
+                ctx.count("ambiguous_inputs_skipped", 1);
+                continue;
+            }
+        }
         ctx.state();
         let want_p = refsem::parse(&spec, s);
         let want = expected_obs(&want_p, &|| err_text(s));
@@ -390,7 +435,7 @@ pub fn explore_parse(
     // vacuity guards per program
     for (i, v) in spec.variants.iter().enumerate() {
         let reachable = !v.disabled && !v.default;
-        if reachable && !seen_variant[i] {
+        if reachable && !seen_variant[i] && !overlapping {
             ctx.machinery(format!("vacuity guard: variant {} ({}) was never the expected result", i, v.ident));
         }
     }
@@ -398,7 +443,7 @@ pub fn explore_parse(
     if !has_default && n_rej == 0 {
         ctx.machinery("vacuity guard: no rejected input".into());
     }
-    if spec.variants.iter().any(|v| !v.disabled) && n_ok == 0 {
+    if spec.variants.iter().any(|v| !v.disabled) && n_ok == 0 && !overlapping {
         ctx.machinery("vacuity guard: no accepted input".into());
     }
 }
